@@ -13,6 +13,16 @@ DEFAULT_DELETE = ['ConfigList', 'AppendNode', 'ExtendNode', 'PathNode', 'Recurse
 FLAG_FIELDS = ['_delete', '_allow_new', '_safe', '_implicit_delete', '_implicit_allow_new', '_implicit_safe']
 
 
+def FA(vs, body, patterns=None, **kw):
+    """ForAll with triggers when z3 accepts them (terms built over ite/store chains are not valid patterns)"""
+    if patterns:
+        try:
+            return z3.ForAll(vs, body, patterns=patterns)
+        except z3.Z3Exception:
+            pass
+    return z3.ForAll(vs, body)
+
+
 def opt_bool(t):
     return z3.Or(is_none(t), is_bool(t))
 
@@ -75,7 +85,7 @@ def md(h, r):
 def md_union(new, a, b):
     """new = {**a, **b} as far as the property cares: no key lost, b wins on common keys"""
     k = z3.Const('!mk', Val)
-    return z3.ForAll([k], z3.And(new.has(k) == z3.Or(a.has(k), b.has(k)),
+    return FA([k], z3.And(new.has(k) == z3.Or(a.has(k), b.has(k)),
                                  z3.Implies(b.has(k), new.get(k) == b.get(k)),
                                  z3.Implies(z3.And(a.has(k), z3.Not(b.has(k))), new.get(k) == a.get(k))))
 
@@ -93,7 +103,7 @@ def forall_children(h, r, phi, tag='c'):
     """for every child c (object identity) under key k of node r: phi(k, c)"""
     k = z3.Const(f'!k{tag}', Val)
     m = children(h, r)
-    return z3.ForAll([k], z3.Implies(m.has(k), phi(k, r_of(m.get(k)))), patterns=[m.get(k)])
+    return FA([k], z3.Implies(m.has(k), phi(k, r_of(m.get(k)))), patterns=[m.get(k)])
 
 
 def tree(h, r, eng=None):
@@ -104,13 +114,13 @@ def tree(h, r, eng=None):
     x = z3.Int('!tx')
     c, c2 = r_of(m.get(k)), r_of(m.get(k2))
     return z3.And(
-        is_ref(h.get('_children', r)),
-        z3.ForAll([k], z3.And(z3.Select(m.pos, k) >= -1, z3.Select(m.pos, k) < m.len,
+        is_ref(h.get('_children', r)), r_of(h.get('_children', r)) > 0, r > 0,
+        FA([k], z3.And(z3.Select(m.pos, k) >= -1, z3.Select(m.pos, k) < m.len,
                               z3.Implies(z3.Select(m.pos, k) >= 0, z3.Select(m.keyat, z3.Select(m.pos, k)) == k)), patterns=[z3.Select(m.pos, k)]),
-        z3.ForAll([k], z3.Implies(m.has(k), z3.And(is_ref(m.get(k)), c > 0, c != r, Desc(r, c), z3.Not(Desc(c, r)), z3.Not(Desc(c, c)))), patterns=[m.get(k)]),
-        z3.ForAll([k, x], z3.Implies(z3.And(m.has(k), Desc(c, x)), z3.And(Desc(r, x), x != r)), patterns=[z3.MultiPattern(m.get(k), Desc(c, x))]),
-        z3.ForAll([k, k2], z3.Implies(z3.And(m.has(k), m.has(k2), k != k2), z3.And(c != c2, z3.Not(Desc(c, c2)))), patterns=[z3.MultiPattern(m.get(k), m.get(k2))]),
-        z3.ForAll([k, k2, x], z3.Implies(z3.And(m.has(k), m.has(k2), k != k2, Desc(c, x)), z3.Not(Desc(c2, x))),
+        FA([k], z3.Implies(m.has(k), z3.And(is_ref(m.get(k)), c > 0, c != r, Desc(r, c), z3.Not(Desc(c, r)), z3.Not(Desc(c, c)))), patterns=[m.get(k)]),
+        FA([k, x], z3.Implies(z3.And(m.has(k), Desc(c, x)), z3.And(Desc(r, x), x != r)), patterns=[z3.MultiPattern(m.get(k), Desc(c, x))]),
+        FA([k, k2], z3.Implies(z3.And(m.has(k), m.has(k2), k != k2), z3.And(c != c2, z3.Not(Desc(c, c2)))), patterns=[z3.MultiPattern(m.get(k), m.get(k2))]),
+        FA([k, k2, x], z3.Implies(z3.And(m.has(k), m.has(k2), k != k2, Desc(c, x)), z3.Not(Desc(c2, x))),
                   patterns=[z3.MultiPattern(m.get(k), m.get(k2), Desc(c, x))]),
         z3.Not(Desc(r, r)))
 
@@ -139,16 +149,27 @@ def inh_safe(h, p):
 WFT = z3.Function('WFT', z3.IntSort(), z3.BoolSort())     # ghost: r is the root of a well-formed (finite, unshared) node tree
 
 
+TopK = z3.Function('TopK', z3.IntSort(), z3.IntSort(), Val)     # ghost: key of the child of r under which descendant x lives
+
+
 def wft_axiom(eng, h):
-    """unfolding of WFT one level (the child structure is read from heap h)"""
+    """unfolding of WFT one level (the child structure is read from heap h): a composed node's children form a proper
+    tree level and are well-formed themselves; every descendant lives under exactly one child; leaves have no descendants"""
     r = z3.Int('!wr')
-    return z3.ForAll([r], z3.Implies(z3.And(WFT(r), is_composed(eng, h.cls(r))),
-                                     z3.And(tree(h, r), forall_children(h, r, lambda k, c: WFT(c), tag='w'))), patterns=[WFT(r)])
+    x = z3.Int('!wx')
+    m = children(h, r)
+    tk = TopK(r, x)
+    ck = r_of(m.get(tk))
+    return z3.And(
+        FA([r], z3.Implies(z3.And(WFT(r), is_composed(eng, h.cls(r))),
+                           z3.And(tree(h, r), forall_children(h, r, lambda k, c: WFT(c), tag='w'))), patterns=[WFT(r)]),
+        FA([r, x], z3.Implies(z3.And(WFT(r), Desc(r, x)),
+                              z3.And(is_composed(eng, h.cls(r)), m.has(tk), z3.Or(x == ck, Desc(ck, x)))), patterns=[z3.MultiPattern(WFT(r), Desc(r, x))]))
 
 
 def desc_valid(h, r):
     x = z3.Int('!dx')
-    return z3.ForAll([x], z3.Implies(Desc(r, x), valid_flags(h, x)), patterns=[Desc(r, x)])
+    return FA([x], z3.Implies(Desc(r, x), valid_flags(h, x)), patterns=[Desc(r, x)])
 
 
 def early_return(h, s):
@@ -157,6 +178,7 @@ def early_return(h, s):
                  z3.And(z3.Not(is_none(h.get('_delete', s))), z3.Not(is_none(h.get('_allow_new', s))), z3.Not(is_none(h.get('_safe', s)))))
 
 
+STRUCT_FIELDS = ['_children', '$cls', '$mlen', '$mkeyat', '$mpos', '$mval']
 IMPLICIT = ['_implicit_delete', '_implicit_allow_new', '_implicit_safe']
 
 
@@ -191,5 +213,20 @@ def ghost_defs(real, ids):
         if len(rs) == len(set(rs)) and ref(o) is not None:
             wft.add(ref(o))
     a, b = z3.Int('!ga'), z3.Int('!gb')
-    return [z3.ForAll([a, b], Desc(a, b) == z3.Or([z3.And(a == x, b == y) for x, y in sorted(pairs)] or [z3.BoolVal(False)])),
-            z3.ForAll([a], WFT(a) == z3.Or([a == x for x in sorted(wft)] or [z3.BoolVal(False)]))]
+    tops = []
+    for o in nodes:
+        ch = o.__dict__.get('_children')
+        if not isinstance(ch, dict) or ref(o) is None:
+            continue
+        for k, c in ch.items():
+            if ref(c) is None or not isinstance(k, (int, str)) or isinstance(k, bool):
+                continue
+            kt = sym.mk_int(k) if isinstance(k, int) else sym.mk_str(k)
+            for x in [c] + walk(c, [o, c]):
+                if ref(x) is not None:
+                    tops.append((ref(o), ref(x), kt))
+    topdef = sym.NONE
+    for ro, rx, kt in tops:
+        topdef = z3.If(z3.And(a == ro, b == rx), kt, topdef)
+    return [FA([a, b], TopK(a, b) == topdef),FA([a, b], Desc(a, b) == z3.Or([z3.And(a == x, b == y) for x, y in sorted(pairs)] or [z3.BoolVal(False)])),
+            FA([a], WFT(a) == z3.Or([a == x for x in sorted(wft)] or [z3.BoolVal(False)]))]
